@@ -158,7 +158,9 @@ def run_property(prop, tier, seed, only=None, workers=None, write_evidence=True)
     def worse(code, msg):
         nonlocal status
         messages.append(msg)
-        order = {0: 0, 2: 1, 1: 2, 3: 3}
+        # a violation that replayed on the uninstrumented package in a fresh interpreter (1) outranks harness errors (3):
+        # trace mismatches are then usually a symptom of the same defect (state leaking between paths)
+        order = {0: 0, 2: 1, 3: 2, 1: 3}
         if order[code] > order[status]:
             status = code
 
